@@ -38,6 +38,20 @@ def gen_cmdline(r, tmpdir, idx):
     args = []
     files = {}
     pieces = []
+    if r.below(7) == 0:
+        # flag interactions on programs that run long enough for the run mode to show: a budget, and each of
+        # static / back end / width / level with probability 1/2, in random order
+        prog = r.choice(["-[>.+<-]", "+[.+]", "++++++++[>++++++++<-]>[.-]", ",[.-]", "+[>+.<]"])
+        fl = [["--limit", r.choice(["1", "3", "20", "100", "1000"])]]
+        for group in (["--static"], ["--inplace", "--ir-int", "--bc-int", "--base-jit"], ["-i8", "-i16", "-i32", "-i64"], ["-O0", "-O1", "-O2", "-O3"], ["--static"], ["--limit"]):
+            if r.below(2) == 0:
+                g = r.choice(group)
+                fl.append([g, r.choice(["2", "50", "400"])] if g == "--limit" else [g])
+        fl.append([prog])
+        order = []
+        while fl:
+            order += fl.pop(r.below(len(fl)))
+        return order, files, gen.random_input(r)
     prog = r.choice([gen.uniform(r, 30), gen.affine(r), "+[-].", ",[.,]", "++>+++[<+>-]<.", gen.macro(r)[:200], "+.[", "+.]", "][", ""])
     # split the program text into 1-3 chunks given as bare args or files
     k = r.randint(1, 3)
@@ -137,7 +151,7 @@ def run(res):
         with ThreadPoolExecutor(max_workers=C.NPROC) as ex:
             gots = list(ex.map(runbin, cases))
         # batch the oracle queries (canonical runs and library renderings)
-        canon_q, print_q = {}, {}
+        canon_q, print_q, lim_q = {}, {}, {}
         for i, (args, files, stdin, dec) in enumerate(cases):
             if dec is None:
                 continue
@@ -153,6 +167,12 @@ def run(res):
                     print_q[i] = "print|%s|%d|%d|%s" % ({"print-ir": "ir", "print-bc": "bc", "print-jit-bc": "jitbc"}[kind], w, opt, h(src))
             else:
                 canon_q[i] = "bf|%d|300000|%s|%s" % (w, h(src), P.env_text(stdin))
+                if mode == "limited" and lim < (1 << 63):
+                    # the budgeted run of the selected back end through the library: the binary must do exactly this
+                    lim_q[i] = "run|%s|%d|%d|limited|%d|20000|%s|%s" % (kind, w, opt, lim, h(src), P.env_text(stdin))
+        lk = sorted(lim_q)
+        lim_r = dict(zip(lk, C.run_lines(hv, [lim_q[k] for k in lk]))) if lk else {}
+        stats["limited_vs_library"] = 0
         ck = sorted(canon_q)
         canon_r = dict(zip(ck, C.run_lines(driver, [canon_q[k] for k in ck]))) if ck else {}
         pk = sorted(print_q)
@@ -218,7 +238,21 @@ def run(res):
                     if mode == "static":
                         stats["skipped_static_large"] += 0
                     cr = canon_r.get(i, "")
-                    if not cr.startswith("done"):
+                    lr = lim_r.get(i, "")
+                    if mode == "limited" and lr.startswith("ok ") and got[0] == "timeout":
+                        bad = "--limit %d on %s -O%d -i%d: no result within 30 s although execute_limited with that budget returns" % (lim, kind, opt, w)
+                    elif mode == "limited" and lr.startswith("ok "):
+                        lout = bytes(int(t[2:], 16) for t in P.split_result(lr)[2].split() if t.startswith("O:"))
+                        stats["limited_vs_library"] += 1
+                        if got[0] != 0 or got[1] != lout:
+                            bad = "--limit %d on %s -O%d -i%d: stdout %r (exit %s) but execute_limited with that budget writes %r" % (lim, kind, opt, w, got[1][:40], got[0], lout[:40])
+                    if bad or not cr.startswith("done"):
+                        if bad:
+                            stats["bad"] += 1
+                            if rep < 5:
+                                rep += 1
+                                res.violation("hpbf %s (stdin %s): %s; model decision: %s" % (" ".join(repr(a) for a in args)[:300], stdin.hex()[:40], bad, m[:200]),
+                                              {"argv": args, "stdin_hex": stdin.hex(), "files": {k: v for k, v in files.items()}, "model": m, "exit": got[0], "library": lr[:300]})
                         continue
                     out = bytes(int(t[2:], 16) for t in P.trace_of(cr).split() if t.startswith("O:"))
                     stats["executed"] += 1
